@@ -328,6 +328,13 @@ def degenerate_families(rng, n_random):
         yield "noise", rng.normal(size=n)
         yield "power-no-baseline", np.linspace(0, 1, n) ** rng.uniform(1, 3)
         yield "short", rng.normal(size=int(rng.integers(1, 12)))
+        # raw digitiser counts / integer ramps: integer-typed arrays
+        dt = [np.int64, np.int32, np.uint16][int(rng.integers(3))]
+        yield "integer-power-no-baseline", (np.arange(n) ** 2).astype(dt)
+        base = np.concatenate([np.zeros(n, dtype=np.int64),
+                               np.arange(1, n + 1) ** 2])
+        yield "integer-baseline-then-power", base.astype(
+            np.int64 if base.max() > 60000 else dt)
 
 
 def run_degenerate(rec, tap, rng, tier, shard, nshards):
